@@ -1,4 +1,4 @@
-//@ region loop_ops_specs props=C06,C07,C09,C14,C15,C01
+//@ region loop_ops_specs props=C06,C07,C09,C14,C15,C01,C16
 /// frame used by all four token operations: entries of the lifecycle set belonging to other sources are untouched,
 /// the set stays duplicate free, and the only entry that may appear is `own`
 pub open spec fn extra_frame(o: &AdditionalLifecycleEventsSet, n: &AdditionalLifecycleEventsSet, own: RegistrationToken) -> bool {
@@ -15,7 +15,7 @@ impl<'l, Data> LoopHandle<'l, Data> {
 // reference patterns `&SourceEntry { .. ref source }` Verus does not support by the equivalent default-binding-mode
 // pattern (by-copy bindings get an explicit `*`).
 // --------------------------------------------------------------------------------------------------------------
-//@ slice src/loop_logic.rs / impl LoopHandle<'l, Data> / fn enable :: body props=C07,C06,C14,C15,C01 name=LoopHandle::enable
+//@ slice src/loop_logic.rs / impl LoopHandle<'l, Data> / fn enable :: body props=C07,C06,C14,C15,C01,C16 name=LoopHandle::enable
 //@ rw R9 1 <<if let &SourceEntry {>> => <<if let SourceEntry {>>
 //@ rw R9 1 <<source: Some(ref source),>> => <<source: Some(source),>>
 //@ rw R9 1 <<TokenFactory::new(entry_token)>> => <<TokenFactory::new(*entry_token)>>
@@ -99,7 +99,7 @@ fn update_body(&self, sources: &SourceList<'l, Data>, poll: &mut Poll, extra: &m
     }
 //@ endslice
 
-//@ slice src/loop_logic.rs / impl LoopHandle<'l, Data> / fn disable :: body props=C07,C09,C06,C14,C15,C01 name=LoopHandle::disable
+//@ slice src/loop_logic.rs / impl LoopHandle<'l, Data> / fn disable :: body props=C07,C09,C06,C14,C15,C01,C16 name=LoopHandle::disable
 //@ rw R9 1 <<if let &SourceEntry {>> => <<if let SourceEntry {>>
 //@ rw R9 1 <<source: Some(ref source),>> => <<source: Some(source),>>
 //@ rw R9 1 <<same_source_as(entry_token)>> => <<same_source_as(*entry_token)>>
@@ -133,7 +133,7 @@ fn disable_body(&self, sources: &SourceList<'l, Data>, poll: &mut Poll, extra: &
         },
 //@ endslice
 
-//@ slice src/loop_logic.rs / impl LoopHandle<'l, Data> / fn remove :: body props=C06,C14,C01 name=LoopHandle::remove
+//@ slice src/loop_logic.rs / impl LoopHandle<'l, Data> / fn remove :: body props=C06,C14,C01,C16 name=LoopHandle::remove
 //@ rw R9 1 <<if let Ok(&mut SourceEntry {>> => <<if let Ok(SourceEntry {>>
 //@ rw R9 1 <<ref mut source,>> => <<source,>>
 //@ rw R10 1 <<self.inner.sources.borrow_mut()>> => <<sources>>
